@@ -85,7 +85,7 @@ def step (t : List String) : Option String :=
       | "tvstore" | "tvstore_t" =>
           if ¬ app.inRange v then pure "badinput" else
           pure (match toSandbox abi ty v with | some r => s!"ok guest={r}" | none => "abort")
-      | "tvload" | "invret" | "cbarg" =>
+      | "tvload" | "tvload_u" | "invret" | "cbarg" =>
           if ¬ g.inRange v then pure "badinput" else pure (showOpt (toApplication abi ty v))
       | "invarg" | "invarg_t" =>
           if ¬ app.inRange v then pure "badinput" else
